@@ -165,6 +165,17 @@ func Hist(name string) *ref.History {
 			[]*ref.AEvent{ref.Q(1600000025, "db1", "DROP TABLE t2")})}}}
 	case "H8":
 		h = hist8(cfg)
+	case "H12":
+		// one statement logged as two rows events outside BEGIN...COMMIT (each is
+		// delivered as a transaction of its own): the first delivery must not
+		// grow when the rest of the statement arrives
+		r1 := ref.R(1600000010, ref.RowWrite, t, ref.RowChange{After: row1(t, 5, "part-one", 1)})
+		r1.Rows.Flags = 0
+		r2 := ref.R(1600000010, ref.RowWrite, t, ref.RowChange{After: row1(t, 6, "part-two", 2)})
+		h = &ref.History{Cfg: cfg, Files: []*ref.File{{Name: f1, Events: cat(
+			txInsert(1600000000, t, 21, 1, "alice"),
+			[]*ref.AEvent{ref.TM(1600000010, t), r1, r2},
+			txDelete(1600000020, t, 23, 1, "alice"))}}}
 	case "H10":
 		// a long stream of small events behind kept transactions: 90 single-row
 		// inserts of ~1.1 KB (a recycled receive / copy arena of some tens of KB
